@@ -91,4 +91,75 @@ func init() {
 			}
 		}
 	})
+
+	// ---- layered5: deep acyclic converter sets over five types
+	reg("layered5", "five types; every set of exactly 3 'layered' converters (inputs of lower type index than the output, 1-2 inputs); target of 1-2 parameters over T2..T4; inputs among T0, T1 — deep acyclic chains in which a multi-input converter is needed by another multi-input converter", func(size int, emit func(Scenario)) {
+		tl := labelsOver([]int{0, 1, 2, 3, 4}, []string{""}, []string{""})
+		var convs []FuncSpec
+		for out := 1; out <= 4; out++ {
+			for _, in := range subsetsUpTo(out, 2) {
+				if len(in) == 0 {
+					continue
+				}
+				convs = append(convs, FuncSpec{In: pick(tl, in), Out: []Label{tl[out]}, InForm: FormPositional, OutForm: FormPositional})
+			}
+		}
+		var targets [][]Label
+		for a := 2; a <= 4; a++ {
+			targets = append(targets, []Label{tl[a]})
+			if size >= 1 {
+				for b := a + 1; b <= 4; b++ {
+					targets = append(targets, []Label{tl[a], tl[b]})
+				}
+			}
+		}
+		for _, cs := range subsetsUpTo(len(convs), 3) {
+			if len(cs) != 3 {
+				continue
+			}
+			var cl []FuncSpec
+			multi := 0
+			for k, ci := range cs {
+				c := convs[ci]
+				c.ID = fmt.Sprintf("c%d", k)
+				cl = append(cl, c)
+				if len(c.In) > 1 {
+					multi++
+				}
+			}
+			if multi == 0 {
+				continue // single-input chains are covered by the chains tiers
+			}
+			for _, tp := range targets {
+				for _, in := range [][]Label{{tl[0]}, {tl[0], tl[1]}} {
+					emit(Scenario{Target: FuncSpec{ID: "tgt", In: tp, InForm: FormPositional, OutForm: FormPositional}, Inputs: mkInputs(in), Convs: cl})
+				}
+			}
+		}
+	})
+
+	// ---- illformed (C01 only): converters whose outputs repeat a type-only type or a
+	// name, differing in subtype. Outside C06's well-formedness; soundness must still hold.
+	reg("illformed", "converters with two type-only outputs of one type (subtypes x / y) or two outputs of one name, feeding subtyped parameters; only the soundness oracle (C01) applies", func(size int, emit func(Scenario)) {
+		outs := [][]Label{
+			{{"", 0, "x"}, {"", 0, "y"}},
+			{{"", 0, ""}, {"", 0, "y"}},
+			{{"a", 0, "x"}, {"a", 0, "y"}},
+			{{"a", 0, ""}, {"a", 0, "x"}},
+		}
+		params := labelsOver([]int{0}, []string{"", "a"}, []string{"", "x", "y"})
+		for _, o := range outs {
+			for _, of := range []Form{FormStruct, FormPtrStruct} {
+				conv := FuncSpec{ID: "c0", In: []Label{{"", 1, ""}}, Out: o, InForm: FormPositional, OutForm: of}
+				for _, tp := range subsetsUpTo(len(params), 2) {
+					if len(tp) == 0 || !wellFormed(pick(params, tp)) {
+						continue
+					}
+					t := mkTarget(pick(params, tp))
+					t.InForm = FormStruct
+					emit(Scenario{Target: t, Inputs: mkInputs([]Label{{"", 1, ""}}), Convs: []FuncSpec{conv}})
+				}
+			}
+		}
+	})
 }
